@@ -331,7 +331,10 @@ class SimSSHServer:
             if f['kind'] in ('refuse', 'blackhole'):
                 continue
             c = f.get('conn')
-            if c != '*' and c != ordinal:
+            if 'conn_from' in f:
+                if ordinal < int(f['conn_from']):       # every connection from this ordinal on
+                    continue
+            elif c != '*' and c != ordinal:
                 continue
             m = f.get('msg')
             if m == tag or m == idx:
